@@ -119,13 +119,14 @@ mut("C10", "interpret-in-fresh-child-env", "ckl/interpreter.py",
             env = self.environment.newEnv()
         else:""")
 mut("C10", "session-recreated-after-error", "ckl/interpreter.py",
-    """            return result
-        finally:""",
-    """            return result
+    """        result = parse_script(script, filename).evaluate(env)
+        if result.isReturn():""",
+    """        try:
+            result = parse_script(script, filename).evaluate(env)
         except CklRuntimeError:
             self.environment = self.base_environment.newEnv()
             raise
-        finally:""")
+        if result.isReturn():""")
 mut("C10", "modules-class-level", "ckl/functions.py",
     """class Environment:
     def __init__(self, parent=None):
@@ -141,18 +142,33 @@ mut("C10", "modules-class-level", "ckl/functions.py",
     def __init__(self, parent=None):
         self.map = dict()
         self.parent = parent""")
-mut("C10", "caller-env-not-detached", "ckl/interpreter.py",
-    """            if root is not None:
-                root.withParent(None)""",
-    """            pass""")
+mut("C10", "foreign-environment-accepted", "ckl/interpreter.py",
+    """                if "checkerlang_secure_mode" in root.map:
+                    raise CklRuntimeError(
+                        ValueString("ERROR"),
+                        "Environment belongs to another interpreter"
+                    )
+                root.withParent(self.environment)""",
+    """                root.withParent(self.environment)""")
+mut("C10", "caller-env-reattached-every-call", "ckl/interpreter.py",
+    """            if root is not self.base_environment:
+                if "checkerlang_secure_mode" in root.map:
+                    raise CklRuntimeError(
+                        ValueString("ERROR"),
+                        "Environment belongs to another interpreter"
+                    )
+                root.withParent(self.environment)""",
+    """            root.withParent(self.environment)""")
 mut("C10", "syntax-error-after-partial-eval", "ckl/interpreter.py",
-    """            result = parse_script(script, filename).evaluate(env)""",
-    """            if ";" in script and "do" not in script:
-                head, _, tail = script.partition(";")
-                parse_script(head, filename).evaluate(env)
-                result = parse_script(tail, filename).evaluate(env)
-            else:
-                result = parse_script(script, filename).evaluate(env)""")
+    """        result = parse_script(script, filename).evaluate(env)
+        if result.isReturn():""",
+    """        if ";" in script and "do" not in script:
+            head, _, tail = script.partition(";")
+            parse_script(head, filename).evaluate(env)
+            result = parse_script(tail, filename).evaluate(env)
+        else:
+            result = parse_script(script, filename).evaluate(env)
+        if result.isReturn():""")
 mut("C10", "failed-def-leaves-null-binding", "ckl/nodes.py",
     """    def evaluate(self, environment):
         value = self.expression.evaluate(environment)
